@@ -282,7 +282,7 @@ def _component_replay(path):
 def run(chk):
     _component_run(chk)
     from harness import syscheck
-    syscheck.system_phase(chk, "C09", {'plain': 6, 'cancel': 2, 'sbatchfail': 1, 'timeout': 1}, n_quick=120, n_thorough=2500, also=())
+    syscheck.system_phase(chk, "C09", {'plain': 5, 'racing_try': 2, 'cancel': 2, 'sbatchfail': 1}, n_quick=120, n_thorough=2500, also=())
 
 
 def replay(path):
